@@ -138,21 +138,30 @@ pub fn unhex(s: &str) -> Vec<u8> {
 }
 
 /// Builds the damaged input of a case: (bytes, number of corruptions applied, descriptions).
-pub fn damaged_input(c: &CorruptCase) -> Result<(Vec<u8>, usize, Vec<String>), Fail> {
+/// Returns the damaged image, the number of corruptions that applied, their descriptions
+/// and their kinds (variant names of `Target`, for the class counters in the evidence).
+pub fn damaged_input(c: &CorruptCase) -> Result<(Vec<u8>, usize, Vec<String>, Vec<String>), Fail> {
     if let Some(h) = &c.raw_hex {
-        return Ok((unhex(h), 1, vec!["raw input".into()]));
+        return Ok((unhex(h), 1, vec!["raw input".into()], vec![]));
     }
     let mut img = build_base(&c.base)?;
     let parsed = refparse::parse(&img).map_err(|e| Fail::new("harness|parse", e))?;
     let mut applied = 0;
     let mut desc = Vec::new();
+    let mut kinds = Vec::new();
     for co in c.corrs.iter() {
         if let Some(d) = apply(&mut img, &parsed, co) {
             applied += 1;
             desc.push(d);
+            let k = format!("{:?}", co.target);
+            let k = k.split(|ch: char| ch == '(' || ch == ' ' || ch == '{').next().unwrap_or("").to_string();
+            let k = format!("applied_{}", k);
+            if !kinds.contains(&k) {
+                kinds.push(k);
+            }
         }
     }
-    Ok((img, applied, desc))
+    Ok((img, applied, desc, kinds))
 }
 
 pub const MEM_BASE: usize = 8 << 20;
@@ -219,7 +228,7 @@ fn read_only_check_inner(bytes: &[u8], script: &[BOp], rep: &mut CaseReport) -> 
 
 fn report(c: &CorruptCase) -> CaseReport {
     let mut rep = CaseReport { evaluations: 1, ..CaseReport::default() };
-    let (bytes, applied, desc) = match damaged_input(c) {
+    let (bytes, applied, desc, kinds) = match damaged_input(c) {
         Ok(x) => x,
         Err(f) => {
             // the base history itself failed: that is another property's business
@@ -234,6 +243,10 @@ fn report(c: &CorruptCase) -> CaseReport {
     match read_only_check(&bytes, &c.script, &mut rep) {
         Ok(accepted) => {
             rep.classes.push(if accepted { "accepted_damaged".into() } else { "rejected_at_open".into() });
+            rep.classes.extend(kinds.iter().cloned());
+            if accepted {
+                rep.classes.extend(kinds.iter().map(|k| format!("{}_accepted", k)));
+            }
             if applied == 0 {
                 rep.classes.push("no_corruption_applicable".into());
             }
